@@ -500,6 +500,31 @@ def perturb_case(case, res):
                 except Exception:
                     res.hits["perturbed piece rejected"] += 1
             ok = pb.concatenate([big[:100003], big[100003:250001], big[250001:]])
+        # long spans at generic rates (offsets of 1e5 .. 1e6 s): every grouping of contiguous pieces must still re-join
+        for rq, N_ in ((1 / 10.7 * u.Hz, 100000), (1e-5 * u.Hz, 40), (3 * u.Hz, 600000), (0.37 * u.Hz, 300000)):
+            xs = pb.Signal(np.zeros(N_, np.int8), sample_rate=rq, start_time=factory.start("iso"))
+            for c1, c2 in ((N_ * 3 // 10, N_ * 6 // 10 + 1), (N_ // 7, N_ - 3), (1, N_ // 2), (N_ // 2 + 11, N_ * 9 // 10)):
+                p1, p2, p3 = xs[:c1], xs[c1:c2], xs[c2:]
+                for gname, fn in (("flat", lambda: pb.concatenate([p1, p2, p3])),
+                                  ("(p1 p2) p3", lambda: pb.concatenate([pb.concatenate([p1, p2]), p3])),
+                                  ("p1 (p2 p3)", lambda: pb.concatenate([p1, pb.concatenate([p2, p3])]))):
+                    res.transitions += 1
+                    try:
+                        j = fn()
+                        if len(j) != N_ or abs(T(j.start_time) - T(xs.start_time)) > 2 * ULP_T:
+                            res.violation("long span|re-joined signal differs", f"{gname} at {rq}: len {len(j)}", case, {"g": gname})
+                    except Exception as e:
+                        res.violation("long span|contiguous pieces rejected", f"cuts ({c1}, {c2}) of {N_} samples at {rq} "
+                                      f"(span {float((N_ / rq).to_value(u.s)):.3g} s), grouping {gname}: {type(e).__name__}: {e}", case,
+                                      {"cuts": [c1, c2], "rate": str(rq), "g": gname})
+                # and a one-sample gap there must still be refused
+                expect_reject_big = [xs[:c1], xs[c1 + 1:]]
+                res.transitions += 1
+                try:
+                    pb.concatenate(expect_reject_big)
+                    res.violation("long span|one-sample gap accepted", f"gap at {c1} of {N_} samples at {rq}", case, {"c1": c1, "rate": str(rq)})
+                except Exception:
+                    res.hits["long span"] += 1
             if len(ok) != 300000:
                 res.violation("perturb|far from start valid rejected", "valid long split not rejoined", case, None)
             res.hits["one-sample error far from the start"] += 1
@@ -517,7 +542,7 @@ def main(argv=None):
         PID, gen_cases=gen_cases, check_case=check_case, describe=describe,
         required_hits=["empty piece", "piece without start time", "leading start-less piece (start extrapolated backwards)",
                        "grouping", "non-contiguous in time rejected", "non-contiguous in frequency rejected",
-                       "joined along frequency", "other-axis mismatch rejected", "perturbed piece rejected", "one-sample error far from the start", "unit spellings", "negative axis spelling", "piece stamped on another time scale", "narrow channels at a high sky frequency"],
+                       "joined along frequency", "other-axis mismatch rejected", "perturbed piece rejected", "one-sample error far from the start", "unit spellings", "negative axis spelling", "piece stamped on another time scale", "narrow channels at a high sky frequency", "long span"],
         assumptions=["a sequence must be rejected only if two NON-EMPTY start-bearing pieces are inconsistent by >= 1 sample "
                      "(mis-stamped empty pieces are unconstrained); rates above ~10 GHz are outside the quantifier "
                      "(Time.isclose window 40 ps)", "any exception class counts as rejection"],
